@@ -8,7 +8,8 @@
 import LccModel.Proto
 import LccModel.Model.Loader
 import LccModel.Model.LoaderSpec
-open Lean LccModel LccModel.Proto LccModel.Loader
+import LccModel.Model.DirScan
+open Lean LccModel LccModel.Proto LccModel.Loader LccModel.DirScan
 
 def getInt (j : Json) (k : String) : Except String Int := do
   let v ← j.getObjVal? k
@@ -154,6 +155,26 @@ partial def parseDir (j : Json) : Except String Dir := do
   let dirs ← (← getArrD j "dirs").mapM parseDir
   pure (.mk (← getStr j "name") mods dirs)
 
+/-- a file entry of a raw directory: `{"name": <file name>, "mod": <module> | null}` (`null`: not importable) -/
+def parseFileEntry (j : Json) : Except String FileEntry := do
+  let name ← getStr j "name"
+  match j.getObjVal? "mod" with
+  | .error _ => pure ⟨name, .junk⟩
+  | .ok .null => pure ⟨name, .junk⟩
+  | .ok m => do pure ⟨name, .module (← parseModule m)⟩
+
+partial def parseRawDir (j : Json) : Except String RawDir := do
+  let files ← (← getArrD j "files").mapM parseFileEntry
+  let dirs ← (← getArrD j "dirs").mapM parseRawDir
+  pure (.mk (← getStr j "name") files dirs)
+
+/-- the decision of the scan on every file entry of the tree: `[[<directory names…>, <file name>], accepted, stem]` -/
+partial def scanJ (pfx : List String) : RawDir → List Json
+  | .mk n fs ds =>
+    let p := pfx ++ [n]
+    fs.map (fun e => Json.arr #[Json.arr ((p ++ [e.name]).map Json.str).toArray, .bool e.accepted, .str (stemOf e.name)])
+      ++ (ds.map (scanJ p)).flatten
+
 def optStrJ : Option String → Json
   | none => .null
   | some s => .str s
@@ -235,6 +256,22 @@ def handle (j : Json) : Except String Json := do
     let c := stripCls c0
     pure (answer ((loadClass c).map (fun s => [s])) (underSuite c.head.suiteName (declClsBody c))
       (underSuite c0.head.suiteName (declClsBody c0)) (noDunderCls c0) (some (acceptsCls c)))
+  | "rawdir" =>
+    -- the directory as it is on disk: the scan decides which entries are suite modules (`Model/DirScan.lean`)
+    let r ← parseRawDir (← j.getObjVal? "dir")
+    let d := scanDir r
+    let a := answer (loadRawDir r) (declDir (stripDir d)) (declDir d) (noDunderDir d) none
+    pure (a.setObjVal! "scan" (Json.arr (scanJ [] r).toArray))
+  | "rawfiles" =>
+    let fs ← (← getArrD j "files").mapM parseFileEntry
+    let ms := scanFiles fs
+    let a := answer (loadRawFiles fs) (declFiles (stripModules ms)) (declFiles ms) (noDunderModules ms) none
+    pure (a.setObjVal! "scan" (Json.arr (scanJ [] (.mk "suites" fs [])).toArray))
+  | "scan" =>
+    -- the decision alone, on a list of names
+    let names ← (← getArrD j "names").mapM (fun n => n.getStr?)
+    pure (Json.mkObj [("accepted", Json.arr (names.map (fun n => Json.bool (acceptsName n))).toArray),
+                      ("stems", Json.arr (names.map (fun n => Json.str (stemOf n))).toArray)])
   | "vis" =>
     -- the decision alone: what the code's expression stores in `.hidden` and what its readers do with it
     let v ← parseVis j
